@@ -1,6 +1,7 @@
 """C16 - Stack behaves as a bounded LIFO (next-level table, readiness classes, addressing, transparency)."""
 
 from .common import *
+from . import excl
 from ..pm import pmatch, pat
 from .C20 import resolve_comb
 
@@ -16,6 +17,7 @@ def check(ctx):
     comp.require_modelled("C16")
     ex = one_config(comp, "C16")
     w, r, p, c = (need_body(ex, n, "C16", comp.site) for n in ("write", "read", "peek", "clear"))
+    excl.exclusive(ctx, "C16", "Stack", w, r)
     decl = comp.init_attr("level")
     m = pmatch("Signal(range(Q_n))", decl) if decl else None
     ctx.check(m is not None and lin_equal(m["n"], pat("self.depth + 1")), "C16.counter-range", comp.site, "Stack.level.shape", found=tstr(decl) if decl else "none", required="Signal(range(depth + 1))")
